@@ -4,6 +4,8 @@ import (
 	"net/netip"
 	"time"
 
+	domainmatcher "github.com/IrineSistiana/mosproxy/internal/domain_matcher"
+
 	"github.com/IrineSistiana/mosproxy/internal/verifrt"
 )
 
@@ -94,4 +96,48 @@ func VerifH_C07_RefreshFiledUnderOwnQuestion() {
 	for _, m := range up.seen {
 		verifrt.Assert(m == 'a' || m == 'b', "the upstream only sees questions that were asked")
 	}
+}
+
+// VerifH_C10_RefreshReachesOnlyItsUpstream: rules also govern the BACKGROUND refreshes: names under `a` go to upstream 1,
+// everything else to upstream 2. Miss on a, hit on a inside the refresh window (harness clock), then a query for b
+// while the refresh is pending or running (≤ 1 scheduling deviation; b's request recycles the pooled objects of the
+// hit's request): upstream 1 is only ever asked for a, upstream 2 only ever for b, each question exactly as often as
+// the history requires, and every response carries the answer for its own question.
+func VerifH_C10_RefreshReachesOnlyItsUpstream() {
+	verifrt.Unwind(400)
+	verifrt.SchedBound(1)
+	verifrt.CtxNoExpiry = true
+	base := time.Unix(1700000000, 0)
+	offset := time.Duration(0)
+	verifrt.Redirect("time.Now", func() time.Time { return base.Add(offset) })
+	verifrt.Redirect("time.Until", func(t time.Time) time.Duration { return t.Sub(base.Add(offset)) })
+	verifrt.Redirect("time.Since", func(t time.Time) time.Duration { return base.Add(offset).Sub(t) })
+	up1, up2 := &vKeyedUpstream{}, &vKeyedUpstream{}
+	m0 := domainmatcher.NewMixMatcher()
+	verifrt.Assume(m0.Add([]byte("domain:a")) == nil)
+	r := vRouter([]*rule{{matcher: m0, upstream: &upstreamWrapper{tag: "up1", u: up1}}, {upstream: &upstreamWrapper{tag: "up2", u: up2}}}, true)
+	s, out := vUDPServer(r)
+	listener := netip.AddrPortFrom(netip.AddrFrom4([4]byte{192, 0, 2, 53}), 53)
+	client := netip.AddrPortFrom(netip.AddrFrom4([4]byte{198, 51, 100, 1}), 1111)
+	s.handleMsg(vQueryMsg(1, 'a', false, 0), nil, client, listener)
+	verifrt.Quiesce()
+	offset = 50 * time.Second
+	s.handleMsg(vQueryMsg(2, 'a', false, 0), nil, client, listener)
+	s.handleMsg(vQueryMsg(3, 'b', false, 0), nil, client, listener)
+	verifrt.Quiesce()
+	verifrt.Reach("served")
+	verifrt.Assert(len(*out) == 3, "one datagram per query")
+	markers := []byte{'a', 'a', 'b'}
+	for _, d := range *out {
+		id := int(d.b[0])<<8 | int(d.b[1])
+		verifrt.Assert(id >= 1 && id <= 3, "response to one of the queries")
+		vCheckResponse(d.b, uint16(id), markers[id-1], true)
+	}
+	for _, m := range up1.seen {
+		verifrt.Assert(m == 'a', "the upstream of the `a` rule is only ever asked for a (also by background refreshes)")
+	}
+	for _, m := range up2.seen {
+		verifrt.Assert(m == 'b', "the catch-all upstream is only ever asked for b")
+	}
+	verifrt.Assert(len(up1.seen) == 2 && len(up2.seen) == 1, "a was fetched once and refreshed once, b fetched once")
 }
